@@ -1,0 +1,20 @@
+//go:build verif
+
+package avc
+
+// VerifStartCode is one start code found by the word-at-a-time scanner:
+// Pos is the index of the first byte after the start code, Len is 3 or 4.
+type VerifStartCode struct {
+	Pos int
+	Len int
+}
+
+// VerifStartCodePositions exposes the unexported start-code scanner. Only
+// compiled with the verif build tag; used by the verification harness.
+func VerifStartCodePositions(stream []byte) (scs []VerifStartCode, minStartCodeLength int) {
+	scNalus, minLen := getStartCodePositions(stream)
+	for _, s := range scNalus {
+		scs = append(scs, VerifStartCode{Pos: s.startPos, Len: s.startCodeLength})
+	}
+	return scs, minLen
+}
